@@ -59,14 +59,18 @@ func NewShardManager(config ShardManagerConfig) *ShardManager {
 func (sm *ShardManager) loadShard(collection models.Collection, shardId string) (*loadedShard, error) {
 	shardDir := filepath.Join(sm.cfg.RootDir, USERCOLSDIR, collection.UserId, collection.Id, shardId)
 	sm.logger.Debug().Str("shardDir", shardDir).Msg("LoadShard")
+	verifYield("load.lockStore")
 	sm.shardLock.Lock()
 	defer sm.shardLock.Unlock()
+	defer verifYield("load.unlockStore")
+	verifYield("load.lookup")
 	if ls, ok := sm.shardStore[shardDir]; ok {
 		// We reset the timer here so that the shard is not unloaded prematurely
 		sm.logger.Debug().Str("shardDir", shardDir).Msg("Returning cached shard")
 		// We attempt a non-blocking send in case the clean up go routine is
 		// busy unloading the shard. In that case the upstream shard client will
 		// see a nil shard reference.
+		verifYield("load.send")
 		select {
 		case ls.doneCh <- false:
 		default:
@@ -75,10 +79,12 @@ func (sm *ShardManager) loadShard(collection models.Collection, shardId string) 
 	}
 	// ---------------------------
 	// Check shard directory exists, create if it doesn't
+	verifYield("load.mkdir")
 	if err := os.MkdirAll(shardDir, 0755); err != nil {
 		return nil, fmt.Errorf("could not create shard directory: %w", err)
 	}
 	// Open shard
+	verifYield("load.open")
 	shard, err := shard.NewShard(filepath.Join(shardDir, "sharddb.bbolt"), collection, sm.cacheManager)
 	if err != nil {
 		return nil, fmt.Errorf("could not open shard: %w", err)
@@ -88,9 +94,11 @@ func (sm *ShardManager) loadShard(collection models.Collection, shardId string) 
 		shard:    shard,
 		doneCh:   make(chan bool),
 	}
+	verifYield("load.put")
 	sm.shardStore[shardDir] = ls
 	// ---------------------------
 	// Setup cleanup goroutine
+	verifYield("load.spawn")
 	go sm.cleanupRoutine(ls, collection.UserPlan.ShardBackupFrequency, collection.UserPlan.ShardBackupCount)
 	return ls, nil
 }
@@ -99,10 +107,13 @@ func (sm *ShardManager) cleanupRoutine(ls *loadedShard, backupFrequency, backupC
 	shardDir := ls.shardDir
 	timeoutDuration := time.Duration(sm.cfg.ShardTimeout) * time.Second
 	timer := time.NewTimer(timeoutDuration)
+	verifTimer(shardDir, timer)
 	defer sm.logger.Debug().Str("shardDir", shardDir).Msg("Stopping shard cleanup goroutine")
 	for {
+		verifYield("cleanup.select")
 		select {
 		case isDone := <-ls.doneCh:
+			verifYield("cleanup.recv")
 			// The following condition comes from the documentation of timer.Stop()
 			if !timer.Stop() {
 				<-timer.C
@@ -116,9 +127,12 @@ func (sm *ShardManager) cleanupRoutine(ls *loadedShard, backupFrequency, backupC
 			}
 		case <-timer.C:
 			sm.logger.Debug().Str("shardDir", shardDir).Msg("Unloading shard")
+			verifYield("cleanup.lockW")
 			ls.mu.Lock() // we commit to exiting the cleanup goroutine here
+			verifYield("cleanup.nilcheck")
 			if ls.shard == nil {
 				sm.logger.Debug().Str("shardDir", shardDir).Msg("Shard already unloaded")
+				verifYield("cleanup.unlockW")
 				ls.mu.Unlock()
 				return
 			}
@@ -131,6 +145,7 @@ func (sm *ShardManager) cleanupRoutine(ls *loadedShard, backupFrequency, backupC
 			// a waste of resources if the shard is not used. Perhaps a
 			// heuristic could be used in DoWithShard operation to determine a
 			// backup is needed along side this one.
+			verifYield("cleanup.backup")
 			if backupFrequency > 0 && backupCount > 0 {
 				if err := ls.shard.Backup(backupFrequency, backupCount); err != nil {
 					sm.logger.Error().Err(err).Str("shardDir", shardDir).Msg("Failed to backup shard")
@@ -138,23 +153,29 @@ func (sm *ShardManager) cleanupRoutine(ls *loadedShard, backupFrequency, backupC
 			}
 			// ---------------------------
 			// Time to say goodbye to the shard
+			verifYield("cleanup.close")
 			if err := ls.shard.Close(); err != nil {
 				sm.logger.Error().Err(err).Str("shardDir", shardDir).Msg("Failed to close shard")
 			}
 			// We set the shard to nil so that other goroutines know it
 			// is closed in case they are waiting on the lock
 			sm.logger.Debug().Str("shardDir", shardDir).Msg("Removing loaded shard")
+			verifYield("cleanup.setnil")
 			ls.shard = nil
 			// We must release the shard lock before taking the store lock:
 			// DeleteCollectionShards takes them in the opposite order and
 			// the two would deadlock. Waiting requests see the nil shard.
+			verifYield("cleanup.unlockW")
 			ls.mu.Unlock()
+			verifYield("cleanup.lockStore")
 			sm.shardLock.Lock()
+			verifYield("cleanup.mapdel")
 			// The entry may have been deleted, and the shard even reloaded,
 			// while we were not holding any lock. Only remove our own entry.
 			if sm.shardStore[shardDir] == ls {
 				delete(sm.shardStore, shardDir)
 			}
+			verifYield("cleanup.unlockStore")
 			sm.shardLock.Unlock()
 			// ---------------------------
 			return
@@ -170,8 +191,11 @@ func (sm *ShardManager) DoWithShard(collection models.Collection, shardId string
 	if err != nil {
 		return fmt.Errorf("could not load shard: %w", err)
 	}
+	verifYield("dws.rlock")
 	ls.mu.RLock()
 	defer ls.mu.RUnlock()
+	defer verifYield("dws.runlock")
+	verifYield("dws.nilcheck")
 	// This nil check is necessary because the shard may have been unloaded
 	// while we were waiting for lock.
 	if ls.shard == nil {
@@ -186,8 +210,11 @@ func (sm *ShardManager) DeleteCollectionShards(collection models.Collection) ([]
 	// other shard loading too. In the future we can make this more efficient by
 	// having a lock per collection. We don't expect too many delete collection
 	// requests and this function in general should be fast.
+	verifYield("del.lockStore")
 	sm.shardLock.Lock()
 	defer sm.shardLock.Unlock()
+	defer verifYield("del.unlockStore")
+	verifYield("del.readdir")
 	// ---------------------------
 	// Shard deletion is a best effort service, we don't return an error if
 	// something goes wrong with the deletion of a shard. This is because the
@@ -211,28 +238,37 @@ func (sm *ShardManager) DeleteCollectionShards(collection models.Collection) ([]
 		}
 		shardDir := filepath.Join(collectionDir, shardDirEntry.Name())
 		// Is the shard already loaded?
+		verifYield("del.lookup")
 		if ls, ok := sm.shardStore[shardDir]; ok {
+			verifYield("del.lockW")
 			ls.mu.Lock()
+			verifYield("del.nilcheck")
 			if ls.shard != nil {
 				// The shard is loaded, we can't delete it before unloading it.
 				// Signal in a non-blocking fashion that the cleanup goroutine
 				// should stop. It may have already triggered the cleanup, in
 				// that case it will see the nil shard reference.
+				verifYield("del.send")
 				select {
 				case ls.doneCh <- true:
 				default:
 				}
+				verifYield("del.close")
 				if err := ls.shard.Close(); err != nil {
 					// Not much we can do here, because we will be purging the shard
 					sm.logger.Error().Err(err).Str("shardDir", shardDir).Msg("Failed to close shard")
 				}
+				verifYield("del.setnil")
 				ls.shard = nil
 			}
+			verifYield("del.unlockW")
 			ls.mu.Unlock()
 		}
+		verifYield("del.mapdel")
 		delete(sm.shardStore, shardDir)
 		// The shard is not loaded, since we have exclusive lock on the
 		// shardStore, we can directly delete it
+		verifYield("del.remove")
 		if err := os.RemoveAll(shardDir); err != nil {
 			sm.logger.Error().Err(err).Str("shardDir", shardDir).Msg("Failed to delete shard")
 			// Again, not much we can do here, because the shard can no longer
